@@ -7,3 +7,9 @@ open Comrak.C10
 #print axioms shapeT_imp_balShapeT
 #print axioms html_balanced
 #print axioms html_balanced_of_shape
+#print axioms lex_spell
+#print axioms balancedBytes_imp_core
+#print axioms html_void_discipline
+#print axioms balanced_tokens_balanced_bytes
+#print axioms html_balanced_bytes_partial
+#print axioms html_footnote_section_once_bytes
